@@ -41,6 +41,7 @@ fn main() {
         "C01" => props::c01::run(&mut ctx),
         "C02" => props::c02::run(&mut ctx),
         "C03" => props::c03::run(&mut ctx),
+        "C05" => props::c05::run(&mut ctx),
         "C06" => props::c06::run(&mut ctx),
         "C07" => props::c07::run(&mut ctx),
         "C08" => props::c08::run(&mut ctx),
@@ -124,6 +125,38 @@ fn main() {
             match wat::parse_str(&text) {
                 Ok(b) => println!("parsed {} bytes; validate: {:?}", b.len(), decode::validate(&b)),
                 Err(e) => println!("wat error: {e}"),
+            }
+        }
+        "debug-c05" => {
+            // worker debug-c05 --replay-input file.json   (json string, or {"text":..,"deps":[..]})
+            let v = ctx.replay_input.clone().expect("input");
+            let (text, deps): (String, Vec<String>) = match &v {
+                serde_json::Value::String(s) => (s.clone(), vec![]),
+                o => (o["text"].as_str().unwrap().to_string(), o["deps"].as_array().map(|a| a.iter().map(|d| d.as_str().unwrap().to_string()).collect()).unwrap_or_default()),
+            };
+            let doc = wac_parser::Document::parse(&text).expect("wac parse");
+            let mut map: indexmap::IndexMap<wac_types::BorrowedPackageKey, Vec<u8>> = indexmap::IndexMap::new();
+            let mut keys = Vec::new();
+            for d in &deps {
+                let bytes = witgen::encode_wit_package(&[], d).expect("dep encode");
+                let head = d.lines().next().unwrap().trim_start_matches("package ").trim_end_matches(';').to_string();
+                let (n, ver) = match head.split_once('@') {
+                    Some((n, v)) => (n.to_string(), Some(semver::Version::parse(v).unwrap())),
+                    None => (head, None),
+                };
+                keys.push((n, ver, bytes));
+            }
+            for (n, ver, b) in &keys {
+                map.insert(wac_types::BorrowedPackageKey::from_name_and_version(n, ver.as_ref()), b.clone());
+            }
+            let res = doc.resolve(map).expect("resolve");
+            let w = res.encode(wac_graph::EncodeOptions { define_components: true, validate: false, processor: None }).expect("encode");
+            println!("=== wac\n{}", wasmprinter::print_bytes(&w).unwrap());
+            println!("=== validate: {:?}", decode::validate(&w));
+            if let Some(wit) = v.get("wit").and_then(|w| w.as_str()) {
+                let named: Vec<(String, String)> = deps.iter().enumerate().map(|(i, d)| (format!("lib{i}"), d.clone())).collect();
+                let r = witgen::encode_wit_package(&named, wit).expect("wit encode");
+                println!("=== reference\n{}", wasmprinter::print_bytes(&r).unwrap());
             }
         }
         "debug-parse" => {
